@@ -5,10 +5,11 @@
 //!
 //! cases_out: one abstract program per line (parsed by ocaml/c07_run.ml and by `parse_program` below):
 //!   program := unit ('|' unit)*
-//!   unit    := uid ',' ('P' package | 'E' entity | 'S'<uid of the primary>) ',' ctx-items ',' body-items ',' lib
+//!   unit    := uid ',' ('P' package | 'E' entity | 'C' context declaration (its clauses are the body items) | 'S'<uid of the primary>) ',' ctx-items ',' body-items ',' lib
 //!   items   := item (' ' item)*
 //!   item    := 'D'ent | 'A'<pkg> (use pkg.all) | 'N'<pkg>':'<des> (use pkg.des) | 'S'<sid>':'<des>':'usage
-//!            | 'Ob' block | 'Op' process | 'F'ent'~'ent (function body f, parameter) | 'C' close
+//!            | 'K'<ctx> context reference | 'Oi'/'Oe'/'Ol' if-generate branch (if / elsif / else) | 'Oc'/'Ow' case-generate alternative
+//!            | 'Of' for generate (next item = its parameter) | 'Ob' block | 'Op' process | 'F'ent'~'ent (function body f, parameter) | 'C' close
 //!   ent     := id ':' des ':' kind ['@' id of the declaration this body completes]
 //!   kind    := 'O'ty constant | 'F'ty'/'ty function(param, result) | 'L'ty literal | 'T'ty('/'id'.'des)* type
 //!   usage   := 'v'ty value expected | 'c'('u' | ty)'/'ty call(actual, result) | 't' type mark
@@ -79,6 +80,12 @@ enum Item {
     Site(u32, u32, Usage),
     OpenBlock,
     OpenProcess,
+    /// a declarative region of a generate statement: b'i' first branch of an if generate, b'e' elsif branch,
+    /// b'l' else branch, b'c' first alternative of a case generate, b'w' further alternative, b'f' for generate
+    /// (the next item declares the generate parameter)
+    OpenGen(u8),
+    /// context reference `context lib.c<uid>;`
+    UseCtx(u32),
     OpenFun(Ent, Ent),
     Close,
 }
@@ -86,6 +93,7 @@ enum Item {
 enum UKind {
     Package,
     Entity,
+    Context,
     Secondary(u32),
 }
 #[derive(Clone, Debug)]
@@ -155,6 +163,8 @@ fn ser_item(it: &Item) -> String {
         }
         Item::OpenBlock => "Ob".to_string(),
         Item::OpenProcess => "Op".to_string(),
+        Item::OpenGen(k) => format!("O{}", *k as char),
+        Item::UseCtx(c) => format!("K{c}"),
         Item::OpenFun(f, p) => format!("F{}~{}", ser_ent(f), ser_ent(p)),
         Item::Close => "C".to_string(),
     }
@@ -168,6 +178,7 @@ fn ser_program(p: &Program) -> String {
             let k = match u.kind {
                 UKind::Package => "P".to_string(),
                 UKind::Entity => "E".to_string(),
+                UKind::Context => "C".to_string(),
                 UKind::Secondary(q) => format!("S{q}"),
             };
             format!("{},{},{},{},{}", u.uid, k, ser_items(&u.ctx), ser_items(&u.body), u.lib)
@@ -265,13 +276,12 @@ fn parse_item(s: &str) -> Result<Item, String> {
             };
             Item::Site(f[0].parse().map_err(|_| "sid")?, f[1].parse().map_err(|_| "sdes")?, u)
         }
-        b'O' => {
-            if body == "p" {
-                Item::OpenProcess
-            } else {
-                Item::OpenBlock
-            }
-        }
+        b'O' => match body {
+            "p" => Item::OpenProcess,
+            "i" | "e" | "l" | "c" | "w" | "f" => Item::OpenGen(body.as_bytes()[0]),
+            _ => Item::OpenBlock,
+        },
+        b'K' => Item::UseCtx(body.parse().map_err(|_| "K")?),
         b'C' => Item::Close,
         b'F' => {
             let (f, p) = body.split_once('~').ok_or("F")?;
@@ -293,6 +303,7 @@ fn parse_program(s: &str) -> Result<Program, String> {
         let kind = match f[1].as_bytes()[0] {
             b'P' => UKind::Package,
             b'E' => UKind::Entity,
+            b'C' => UKind::Context,
             b'S' => UKind::Secondary(f[1][1..].parse().map_err(|_| "S")?),
             _ => return Err(format!("bad unit kind {u}")),
         };
@@ -377,6 +388,9 @@ enum RK {
     Block,
     Process,
     Func(Ty),
+    /// branch of an if / case generate (b'i' | b'c') or a for generate (b'f')
+    Gen(u8),
+    Ctx,
 }
 impl<'a> Renderer<'a> {
     fn unit_lib(&self, uid: u32) -> u32 {
@@ -384,11 +398,14 @@ impl<'a> Renderer<'a> {
     }
     fn libref(&self, pkg: u32, cur: &Unit) -> String {
         let l = self.unit_lib(pkg);
-        if l == cur.lib && (pkg + cur.uid) % 2 == 0 {
+        if l == cur.lib && (pkg + cur.uid) % 2 == 0 && cur.kind != UKind::Context {
             "work".to_string()
         } else {
             (self.libname)(l)
         }
+    }
+    fn ctxlib(&self, c: u32, cur: &Unit) -> String {
+        self.libref(c, cur)
     }
     fn type_mark(&self, t: Ty, cur: &Unit) -> String {
         match t {
@@ -446,9 +463,15 @@ impl<'a> Renderer<'a> {
     fn items(&mut self, f: usize, cur: &Unit, top: RK, items: &[Item]) {
         let mut stack: Vec<(RK, bool)> = vec![(top, false)];
         let mut pending_lits: Vec<Ent> = vec![];
-        for it in items {
+        let mut alt_no = 0u32;
+        let mut pending_param: Option<u32> = None;
+        for (idx, it) in items.iter().enumerate() {
             match it {
                 Item::Decl(e) => match &e.kind {
+                    Kind::Obj(_) if pending_param == Some(e.id) => {
+                        // already rendered as the parameter of the for generate
+                        pending_param = None;
+                    }
                     Kind::Obj(t) => {
                         let text = format!("constant {} : {} := {};", desig(e.des), self.type_mark(*t, cur), self.value(*t, cur));
                         let l = self.emit(f, text);
@@ -556,6 +579,64 @@ impl<'a> Renderer<'a> {
                         stack.push((RK::Process, false));
                     }
                 }
+                Item::OpenGen(k) => {
+                    let k = *k;
+                    if matches!(k, b'i' | b'c' | b'f') {
+                        if let Some(topf) = stack.last_mut() {
+                            if !topf.1 {
+                                topf.1 = true;
+                                self.lines[f].push("begin".to_string());
+                            }
+                        }
+                        self.counter += 1;
+                    }
+                    match k {
+                        b'i' => {
+                            self.emit(f, format!("g{} : if true generate", self.counter));
+                            stack.push((RK::Gen(b'i'), false));
+                        }
+                        b'e' => {
+                            self.emit(f, "elsif true generate".to_string());
+                            stack.push((RK::Gen(b'i'), false));
+                        }
+                        b'l' => {
+                            self.emit(f, "else generate".to_string());
+                            stack.push((RK::Gen(b'i'), false));
+                        }
+                        b'c' => {
+                            self.emit(f, format!("g{} : case integer'(0) generate", self.counter));
+                            self.emit(f, "when 0 =>".to_string());
+                            alt_no = 0;
+                            stack.push((RK::Gen(b'c'), false));
+                        }
+                        b'w' => {
+                            alt_no += 1;
+                            self.emit(f, format!("when {} =>", alt_no));
+                            stack.push((RK::Gen(b'c'), false));
+                        }
+                        _ => {
+                            // the parameter is the next item
+                            let pname = match items.get(idx + 1) {
+                                Some(Item::Decl(e)) => {
+                                    pending_param = Some(e.id);
+                                    desig(e.des)
+                                }
+                                _ => "gp".to_string(),
+                            };
+                            let pre = format!("g{} : for ", self.counter);
+                            let col = pre.len() as u32;
+                            let l = self.emit(f, format!("{}{} in 0 to 1 generate", pre, pname));
+                            if let Some(id) = pending_param {
+                                self.decls.insert((f, l, col), id);
+                            }
+                            stack.push((RK::Gen(b'f'), false));
+                        }
+                    }
+                }
+                Item::UseCtx(c) => {
+                    let text = format!("context {}.c{};", self.ctxlib(*c, cur), c);
+                    self.emit(f, text);
+                }
                 Item::OpenFun(fe, pe) => {
                     let (p, r) = match &fe.kind {
                         Kind::Func(p, r) => (*p, *r),
@@ -579,20 +660,36 @@ impl<'a> Renderer<'a> {
                 Item::Close => {
                     if stack.len() > 1 {
                         let (k, begun) = stack.pop().unwrap();
-                        self.close(f, cur, k, begun);
+                        self.close(f, cur, k, begun, items.get(idx + 1));
                     }
                 }
             }
         }
         while stack.len() > 1 {
             let (k, begun) = stack.pop().unwrap();
-            self.close(f, cur, k, begun);
+            self.close(f, cur, k, begun, None);
         }
         let (k, begun) = stack.pop().unwrap();
-        self.close(f, cur, k, begun);
+        self.close(f, cur, k, begun, None);
     }
-    fn close(&mut self, f: usize, cur: &Unit, k: RK, begun: bool) {
+    fn close(&mut self, f: usize, cur: &Unit, k: RK, begun: bool, next: Option<&Item>) {
         match k {
+            RK::Gen(g) => {
+                if !begun {
+                    self.emit(f, "begin".to_string());
+                }
+                let continues = match (g, next) {
+                    (b'i', Some(Item::OpenGen(b'e'))) | (b'i', Some(Item::OpenGen(b'l'))) => true,
+                    (b'c', Some(Item::OpenGen(b'w'))) => true,
+                    _ => false,
+                };
+                if !continues {
+                    self.emit(f, "end generate;".to_string());
+                }
+            }
+            RK::Ctx => {
+                self.emit(f, "end context;".to_string());
+            }
             RK::Block => {
                 if !begun {
                     self.emit(f, "begin".to_string());
@@ -633,6 +730,12 @@ impl<'a> Renderer<'a> {
         libs.sort();
         libs.dedup();
         let names: Vec<String> = libs.iter().map(|l| (self.libname)(*l)).collect();
+        if u.kind == UKind::Context {
+            self.emit(f, format!("context c{} is", u.uid));
+            self.emit(f, format!("library {};", names.join(", ")));
+            self.items(f, u, RK::Ctx, &u.body);
+            return;
+        }
         self.emit(f, format!("library {};", names.join(", ")));
         let ctx = u.ctx.clone();
         for it in ctx.iter() {
@@ -645,10 +748,15 @@ impl<'a> Renderer<'a> {
                     let text = format!("use {}.p{}.{};", self.libref(*p, u), p, desig(*d));
                     self.emit(f, text);
                 }
+                Item::UseCtx(c) => {
+                    let text = format!("context {}.c{};", self.ctxlib(*c, u), c);
+                    self.emit(f, text);
+                }
                 _ => {}
             }
         }
         let top = match u.kind {
+            UKind::Context => RK::Ctx,
             UKind::Package => {
                 self.emit(f, format!("package p{} is", u.uid));
                 RK::Pkg
@@ -715,6 +823,8 @@ struct Gen {
     /// entities that are probably visible at the current point (declared or used in an enclosing region);
     /// only a bias for the choice of use sites
     pool: Vec<Ent>,
+    /// context declarations: uid and the entities their clauses make potentially visible
+    ctxs: Vec<(u32, Vec<Ent>)>,
     deep: bool,
 }
 /// what a region already declares, to avoid duplicate declarations
@@ -1044,7 +1154,47 @@ impl Gen {
                 ctx.push(u);
             }
         }
+        // a context reference in every position relative to the use clauses; often next to a by-name use
+        // clause for a designator that the context also makes visible (from another package)
+        if !self.ctxs.is_empty() && self.r.chance(3, 5) {
+            let (c, brought) = self.ctxs[self.r.below(self.ctxs.len())].clone();
+            if !brought.is_empty() && self.r.chance(2, 3) {
+                let d = brought[self.r.below(brought.len())].des;
+                let others: Vec<u32> = (1..upto_pkg)
+                    .filter(|p| self.pkg_names.get(p).map(|v| v.contains(&d)).unwrap_or(false))
+                    .collect();
+                if d < 100 && !others.is_empty() {
+                    let p = others[self.r.below(others.len())];
+                    let ents: Vec<Ent> =
+                        self.pkg_ents.get(&p).map(|v| v.iter().filter(|e| e.des == d).cloned().collect()).unwrap_or_default();
+                    self.pool.extend(ents);
+                    let at = self.r.below(ctx.len() + 1);
+                    ctx.insert(at, Item::UseName(p, d));
+                }
+            }
+            let at = self.r.below(ctx.len() + 1);
+            ctx.insert(at, Item::UseCtx(c));
+            self.pool.extend(brought);
+        }
         ctx
+    }
+    fn context_decl(&mut self, uid: u32, lib: u32, npkgs: u32) -> Unit {
+        self.pool.clear();
+        let mut body = vec![];
+        if !self.ctxs.is_empty() && self.r.chance(1, 4) {
+            let (c, brought) = self.ctxs[self.r.below(self.ctxs.len())].clone();
+            body.push(Item::UseCtx(c));
+            self.pool.extend(brought);
+        }
+        let n = 1 + self.r.below(3);
+        for _ in 0..n {
+            if let Some(u) = self.use_item(npkgs + 1) {
+                body.push(u);
+            }
+        }
+        let brought = self.pool.clone();
+        self.ctxs.push((uid, brought));
+        Unit { uid, kind: UKind::Context, ctx: vec![], body, lib }
     }
     fn package(&mut self, uid: u32, lib: u32) -> Unit {
         self.pool.clear();
@@ -1112,27 +1262,63 @@ impl Gen {
             self.decl_item(rn, upto_pkg, depth, false, out);
         }
     }
-    fn concurrent(&mut self, upto_pkg: u32, depth: u32, out: &mut Vec<Item>) {
+    /// one declarative region of a concurrent statement (block, generate branch / alternative, for generate)
+    fn conc_region(&mut self, open: Item, upto_pkg: u32, depth: u32, nest: bool, out: &mut Vec<Item>) {
         let maxd = if self.deep { 5 } else { 3 };
+        let is_for = open == Item::OpenGen(b'f');
+        out.push(open);
+        let mut rn = RegionNames::default();
+        let mark = self.pool.len();
+        if is_for {
+            // the generate parameter is declared in the region of the generate statement
+            let d = self.value_des();
+            rn.single.push(d);
+            let e = Ent { id: self.id(), des: d, kind: Kind::Obj(T_INTEGER), declby: None };
+            self.pool.push(e.clone());
+            out.push(Item::Decl(e));
+        }
+        self.region_items(&mut rn, upto_pkg, depth + 1, out);
+        if nest && depth + 1 < maxd {
+            self.concurrent(upto_pkg, depth + 1, out);
+        }
+        self.pool.truncate(mark);
+        out.push(Item::Close);
+    }
+    fn concurrent(&mut self, upto_pkg: u32, depth: u32, out: &mut Vec<Item>) {
         let nb = self.r.below(3);
         for _ in 0..nb {
-            if self.r.chance(1, 2) {
-                out.push(Item::OpenProcess);
-                let mut rn = RegionNames::default();
-                let mark = self.pool.len();
-                self.region_items(&mut rn, upto_pkg, depth + 1, out);
-                self.pool.truncate(mark);
-                out.push(Item::Close);
-            } else {
-                out.push(Item::OpenBlock);
-                let mut rn = RegionNames::default();
-                let mark = self.pool.len();
-                self.region_items(&mut rn, upto_pkg, depth + 1, out);
-                if depth + 1 < maxd {
-                    self.concurrent(upto_pkg, depth + 1, out);
+            match self.r.below(10) {
+                0..=2 => {
+                    out.push(Item::OpenProcess);
+                    let mut rn = RegionNames::default();
+                    let mark = self.pool.len();
+                    self.region_items(&mut rn, upto_pkg, depth + 1, out);
+                    self.pool.truncate(mark);
+                    out.push(Item::Close);
                 }
-                self.pool.truncate(mark);
-                out.push(Item::Close);
+                3..=4 => self.conc_region(Item::OpenBlock, upto_pkg, depth, true, out),
+                5..=6 => {
+                    // sibling regions: the branches of an if generate
+                    let nest = self.r.chance(1, 3);
+                    self.conc_region(Item::OpenGen(b'i'), upto_pkg, depth, nest, out);
+                    let n = self.r.below(3);
+                    for _ in 0..n {
+                        self.conc_region(Item::OpenGen(b'e'), upto_pkg, depth, false, out);
+                    }
+                    if self.r.chance(1, 2) {
+                        self.conc_region(Item::OpenGen(b'l'), upto_pkg, depth, false, out);
+                    }
+                }
+                7..=8 => {
+                    // sibling regions: the alternatives of a case generate
+                    let nest = self.r.chance(1, 3);
+                    self.conc_region(Item::OpenGen(b'c'), upto_pkg, depth, nest, out);
+                    let n = 1 + self.r.below(3);
+                    for _ in 0..n {
+                        self.conc_region(Item::OpenGen(b'w'), upto_pkg, depth, false, out);
+                    }
+                }
+                _ => self.conc_region(Item::OpenGen(b'f'), upto_pkg, depth, true, out),
             }
         }
     }
@@ -1145,6 +1331,13 @@ impl Gen {
             prog.push(self.package(uid, lib));
         }
         let mut uid = npkgs;
+        let nctx = self.r.below(3);
+        for _ in 0..nctx {
+            uid += 1;
+            let lib = self.r.below(nlibs as usize) as u32;
+            let c = self.context_decl(uid, lib, npkgs);
+            prog.push(c);
+        }
         for of in 1..=npkgs {
             let has_funcs = !self.pkg_funcs.get(&of).map(|v| v.is_empty()).unwrap_or(true);
             if has_funcs || self.r.chance(1, 4) {
@@ -1195,6 +1388,7 @@ fn generate(seed: u64, idx: u64, deep: bool) -> Program {
         pkg_funcs: HashMap::new(),
         pkg_ents: HashMap::new(),
         pool: vec![],
+        ctxs: vec![],
         deep,
     };
     g.program()
